@@ -329,6 +329,40 @@ fn run<F: MathFunction + RenderHints + Clone>(case: &Case, cx: &mut Cx) -> Check
         cx.ev.count("rejected_surface_not_strictly_inside_region");
         return Ok(());
     }
+    // ... and rigorously, whatever the depth: the 1-Lipschitz field must be
+    // positive on the six faces of the region.  Faces are sampled on a 48 x 48
+    // lattice; a sample whose value exceeds the model-space half-diagonal of a
+    // lattice cell proves the field positive on that whole cell.  (The coarse
+    // reference grid alone missed a box corner poking through a face at depth
+    // 2, and the open mesh that results is not the mesher's fault.)
+    {
+        let stretch = ((w2m.fixed_view::<3, 3>(0, 0).determinant().abs() as f64)
+            / (w2m[(3, 3)].abs() as f64).powi(3))
+        .cbrt();
+        const M: usize = 48;
+        let margin = (std::f64::consts::SQRT_2 / 2.0) * (2.0 / M as f64) * stretch * 1.01;
+        let mut vals = vec![];
+        let c = |i: usize| -1.0 + (i as f32 + 0.5) * 2.0 / M as f32;
+        for axis in 0..3 {
+            for side in [-1.0f32, 1.0] {
+                for a in 0..M {
+                    for b in 0..M {
+                        let mut p = [0.0f32; 3];
+                        p[axis] = side;
+                        p[(axis + 1) % 3] = c(a);
+                        p[(axis + 2) % 3] = c(b);
+                        let q = w2m.transform_point(&Point3::new(p[0], p[1], p[2]));
+                        flat.eval_xyz(q.x, q.y, q.z, &mut vals);
+                        if !((vals[ri] as f64) > margin) {
+                            cx.ev.count("rejected_surface_not_strictly_inside_region");
+                            cx.ev.count("rejected_by_the_face_lattice_test");
+                            return Ok(());
+                        }
+                    }
+                }
+            }
+        }
+    }
     let octree = Octree::build::<F>(&bound, &settings)
         .ok_or_else(|| Fail::new("build-returned-none", "None without cancellation"))?;
     let mesh = octree.walk_dual();
